@@ -18,7 +18,10 @@ MODULES = {
     "C06": "props_frame",
     "C07": "props_trace",
     "C15": "props_frame",
+    "C08": "props_reparse",
+    "C09": "props_reparse",
     "C10": "props_c10",
+    "C11": "props_c11",
     "C12": "props_c12",
     "C13": "props_engine",
     "C17": "props_c12",
